@@ -20,7 +20,7 @@ const TWO52: f64 = 4503599627370496.0;
 
 #[derive(Clone, Debug)]
 pub struct Scenario {
-    pub layout: usize, // 0 free, 1 pillar between start and goal, 2 cage around the tool at the start
+    pub layout: usize, // 0 free, 1 pillar between start and goal, 2 cage around the tool at the start, 3 free cell with collision checking switched off (CheckMode::NoCheck)
     pub limits: usize, // 0 wide, 1 narrower window, 2 wrapping on J4/J6, 3 non-wrapping but reaching beyond +-pi (J1 in 0..270 deg)
     pub step: f64,
     pub max_try: usize,
@@ -58,7 +58,7 @@ impl Scenario {
 
 pub fn scenario_cell(s: &Scenario) -> CellDesc {
     let mut cell = CellDesc::standard();
-    cell.safety = SafetyDesc::touch(0);
+    cell.safety = SafetyDesc::touch(if s.layout == 3 { 2 } else { 0 });
     cell.envs = match s.layout {
         1 => {
             // pillar at azimuth 0.6 rad, radius 0.6 m, in the height band the forearm sweeps
@@ -389,6 +389,13 @@ pub fn scenarios(thorough: bool) -> Vec<(Scenario, usize, bool)> {
             }
         }
     }
+    // collision checking switched off: the planner's contract (spacing, end points, budget, cancellation) is the same
+    for step in [0.05, 0.3] {
+        for max_try in 0..=3 {
+            v.push((Scenario { layout: 3, limits: 0, step, max_try, pair: 0 }, k, max_try <= 2));
+            v.push((Scenario { layout: 3, limits: 1, step, max_try, pair: 0 }, k, false));
+        }
+    }
     // goal = start up to rounding residue, and goal == start
     for pair in [4usize, 5] {
         for step in [0.05, 0.3] {
@@ -428,7 +435,7 @@ pub fn run(ctx: &Ctx) -> Report {
     }
     rep.traces_validated = rep.states;
     rep.sample(|| json!({"scenario": {"layout": 1, "limits": 0, "step": 0.3, "max_try": 3}, "samples": [3, 0, 2], "alphabet": (0..5).map(|k| nums(&alphabet(&scs[0].0, k))).collect::<Vec<_>>()}));
-    rep.rule = "layouts {free, pillar between start and goal, plates around the tool at the start} x limits {wide, window, wrapping on J4/J6, non-wrapping beyond +-pi} x step {0.05, 0.3, 2.5; 2.5e-4 and 8e-4 on a pair 0.03 rad apart; goal equal to the start exactly / up to 1e-17 residues} x \
+    rep.rule = "layouts {free, pillar between start and goal, plates around the tool at the start, free with collision checking switched off} x limits {wide, window, wrapping on J4/J6, non-wrapping beyond +-pi} x step {0.05, 0.3, 2.5; 2.5e-4 and 8e-4 on a pair 0.03 rad apart; goal equal to the start exactly / up to 1e-17 residues} x \
                 max_try 0..D; for each, the tree of sample sequences over the alphabet {goal, start, into the obstacle, around it, far corner, ...} is explored \
                 exhaustively: every execution's consumed positions beyond its prefix branch into every other alphabet member (defaults first); the real \
                 sampler consumes scripted raw draws; oracle on Ok: start/goal bit-equal, every node !collides, consecutive nodes <= 3 steps, nodes within \
